@@ -90,9 +90,10 @@ func (s *channelState) close() {
 		return
 	}
 
-	// Cancel context, close receive queue
-	s.ctx.Cancel()
+	// Close receive queue, then cancel context,
+	// a receiver woken up by the context must see the queue closed.
 	s.recvQueue.Close()
+	s.ctx.Cancel()
 }
 
 // receive
